@@ -87,7 +87,7 @@ def read_atom(tok):
     return a
 
 
-def read_smiles(s, tolerant=False):
+def read_smiles(s, tolerant=False, ring_across_dot=True):
     atoms = []
     i, n = 0, len(s)
     prev = None           # index of the atom the next item attaches to (None at fragment start)
@@ -136,8 +136,8 @@ def read_smiles(s, tolerant=False):
                 raise SmiError("bad dot")
             if prev is None and not (tolerant and atoms):
                 raise SmiError("bad dot")
-            if open_rings:
-                raise SmiError("ring bond across dot")     # selfies does not support it; outside the domain
+            if open_rings and not ring_across_dot:
+                raise SmiError("ring bond across dot")     # legal SMILES, but selfies.encoder documents it as unsupported
             prev = None
             after_branch = False
             i += 1
